@@ -85,8 +85,24 @@ func (e *Engine) VerifyFunc(key string, small bool) *FnCtx {
 		_ = resT
 		site := fmt.Sprintf("b%d", r.blk.Index)
 		for _, c := range ctr.Ensures {
-			g := env.tr(c.E)
-			fc.obls = append(fc.obls, &Obl{Func: key, Kind: "ensures", Label: c.Label, Site: site, NFacts: len(fc.facts), Path: r.reach, Goal: g.T, Using: c.Using, Text: c.Text})
+			goalE := c.E
+			// `afterloop(k) ==> P`: only at return sites dominated by the header of loop k
+			if imp, ok := goalE.(*EBinary); ok && imp.Op == "==>" {
+				if call, ok := imp.X.(*ECall); ok && call.Fun == "afterloop" && len(call.Args) == 1 {
+					var n int
+					if lit, ok := call.Args[0].(*EInt); ok {
+						fmt.Sscan(lit.Val, &n)
+					}
+					if n >= len(fr.headers) || !fr.headers[n].Dominates(r.blk) {
+						continue
+					}
+					goalE = imp.Y
+				}
+			}
+			for k, part := range splitConj(goalE) {
+				g := env.tr(part)
+				fc.obls = append(fc.obls, &Obl{Func: key, Kind: "ensures", Label: c.Label, Site: fmt.Sprintf("%s.%d", site, k), NFacts: len(fc.facts), Path: r.reach, Goal: g.T, Using: c.Using, Text: c.Text})
+			}
 		}
 		for _, c := range ctr.AsIs {
 			g := env.tr(c.E)
@@ -228,9 +244,69 @@ func (e *Engine) VerifyLemma(l *Lemma, small bool) *FnCtx {
 		tpkg = p.Types
 	}
 	env := &Env{fc: fc, tpkg: tpkg, names: map[string]TV{}, cur: entry}
-	g := env.tr(l.E)
-	fc.obls = append(fc.obls, &Obl{Func: "lemma", Kind: "lemma", Label: l.Label, NFacts: 0, Path: "true", Goal: g.T, Using: l.Using, Text: l.Text})
+	var goals []string
+	for _, part := range splitConj(l.E) {
+		goals = append(goals, env.tr(part).T)
+	}
+	// the proved contracts of the pure Go functions mentioned in the lemma are available as quantified facts
+	done := map[string]bool{}
+	for changed := true; changed; {
+		changed = false
+		for key := range fc.pfUsed {
+			if done[key] {
+				continue
+			}
+			done[key] = true
+			changed = true
+			fc.contractAxiom(key)
+		}
+	}
+	for k, g := range goals {
+		fc.obls = append(fc.obls, &Obl{Func: "lemma", Kind: "lemma", Label: l.Label, Site: fmt.Sprint(k), NFacts: len(fc.facts), Path: "true", Goal: g, Using: l.Using, Text: l.Text})
+	}
 	return fc
+}
+
+// contractAxiom: forall args. requires ==> ensures[result := pf(args)] for a pure Go function under (proved) contract.
+func (fc *FnCtx) contractAxiom(key string) {
+	fn := fc.eng.Funcs[key]
+	ctr := fc.eng.Spec.Funcs[key]
+	if fn == nil || ctr == nil {
+		return
+	}
+	var tpkg *types.Package
+	if p, ok := fc.eng.Pkgs[ctr.Pkg]; ok {
+		tpkg = p.Types
+	}
+	env := &Env{fc: fc, tpkg: tpkg, names: map[string]TV{}, cur: fc.entry}
+	name, _ := fc.pureFun(fn)
+	var qs, as []string
+	for _, p := range fn.Params {
+		q := "ca_" + mangle(p.Name())
+		s := fc.P.SortOf(p.Type())
+		env.names[p.Name()] = TV{q, s, p.Type()}
+		qs = append(qs, fmt.Sprintf("(%s %s)", q, s))
+		as = append(as, q)
+	}
+	app := fmt.Sprintf("(%s %s)", name, strings.Join(as, " "))
+	rT := fn.Signature.Results().At(0).Type()
+	tv := TV{app, fc.P.SortOf(rT), rT}
+	env.names["result"] = tv
+	env.names["result0"] = tv
+	if n := fn.Signature.Results().At(0).Name(); n != "" {
+		env.names[n] = tv
+	}
+	var pre []string
+	for _, c := range ctr.Requires {
+		pre = append(pre, env.tr(c.E).T)
+	}
+	for _, c := range ctr.Ensures {
+		body := env.tr(c.E).T
+		if len(pre) > 0 {
+			body = fmt.Sprintf("(=> (and %s) %s)", strings.Join(pre, " "), body)
+		}
+		fc.facts = append(fc.facts, Fact{Text: fmt.Sprintf("(assert (forall (%s) (! %s :pattern (%s))))", strings.Join(qs, " "), body, app), Tag: "post:" + ctr.Key + ":" + c.Label})
+	}
 }
 
 // axiomFacts: every axiom of the spec files, translated in this context (only those whose symbols are in use are needed, but
